@@ -60,7 +60,10 @@ def translate(repo):
     items.append(typed("wait_loops_on_serve", "bool", coq_bool(
         wt == ["while not self._is_ready and (not self._ttl.expired()):\n    self._conn.serve(self._ttl)",
                "if not self._is_ready:\n    raise AsyncResultTimeout('result expired')"])))
-    call = [u(x) for x in strip_doc(find_func(ar, "__call__").body)]
+    cbody = strip_doc(find_func(ar, "__call__").body)
+    if cbody and isinstance(cbody[0], ast.With) and [u(i.context_expr) for i in cbody[0].items] == ["self._lock"]:
+        cbody = cbody[0].body           # repaired tree: the decision and the publication sit under the result's own lock
+    call = [u(x) for x in cbody]
     items.append(typed("call_sets_obj_before_ready", "bool", coq_bool(
         call[:4] == ["if self.expired:\n    return", "self._is_exc = is_exc", "self._obj = obj", "self._is_ready = True"])))
     cb = [u(x) for x in strip_doc(find_func(cls, "_seq_request_callback").body)]
